@@ -3,20 +3,31 @@
 package influxql
 
 import (
+	"runtime"
 	"sync"
 	"sync/atomic"
+	"unsafe"
 )
 
 // Instrumentation for the verification harness in /verif. Compiled only with
 // `-tags verif`; verif_stub.go provides the no-op versions otherwise.
 
-var verifDelivered sync.Map // *reader -> *int64: runes delivered by read(), including pushed-back ones re-delivered
+// verifDelivered maps the address of a reader to the number of runes its read() has delivered
+// into the ring. It is keyed by address (not by pointer) so that it does not keep readers alive;
+// a finalizer removes the entry when the reader is collected.
+var verifDelivered sync.Map // uintptr(*reader) -> *int64
+
+func verifKey(r *reader) uintptr { return uintptr(unsafe.Pointer(r)) }
 
 // verifOnRead counts a rune physically delivered into the reader's ring.
 func verifOnRead(r *reader) {
-	v, ok := verifDelivered.Load(r)
+	v, ok := verifDelivered.Load(verifKey(r))
 	if !ok {
-		v, _ = verifDelivered.LoadOrStore(r, new(int64))
+		var loaded bool
+		v, loaded = verifDelivered.LoadOrStore(verifKey(r), new(int64))
+		if !loaded {
+			runtime.SetFinalizer(r, func(r *reader) { verifDelivered.Delete(verifKey(r)) })
+		}
 	}
 	atomic.AddInt64(v.(*int64), 1)
 }
@@ -39,7 +50,7 @@ func verifAssertTokenPushback(s *bufScanner) {
 
 // VerifConsumed reports how many runes the scanner has consumed net of pushback.
 func (s *Scanner) VerifConsumed() int {
-	v, ok := verifDelivered.Load(s.r)
+	v, ok := verifDelivered.Load(verifKey(s.r))
 	if !ok {
 		return -s.r.n
 	}
